@@ -19,6 +19,7 @@ import (
 
 	"github.com/gopcua/opcua/debug"
 	"github.com/gopcua/opcua/errors"
+	"github.com/gopcua/opcua/internal/verifhook"
 	"github.com/gopcua/opcua/ua"
 	"github.com/gopcua/opcua/uacp"
 	"github.com/gopcua/opcua/uapolicy"
@@ -288,6 +289,7 @@ func (s *SecureChannel) dispatcher() {
 			}
 
 			ch, ok := s.popHandler(msg.RequestID)
+			verifhook.Point("sc.disp.popped")
 
 			if !ok {
 				debug.Printf("uasc %d/%d: no handler for %T", s.c.ID(), msg.RequestID, msg.body)
@@ -306,6 +308,7 @@ func (s *SecureChannel) dispatcher() {
 				// this should never happen since the chan is of size one
 				debug.Printf("uasc %d/%d: unexpected state. channel write should always succeed.", s.c.ID(), msg.RequestID)
 			}
+			verifhook.Point("sc.disp.delivered")
 
 			s.rcvLocker.waitIfLock()
 		}
@@ -869,9 +872,12 @@ func (s *SecureChannel) renew(instance *channelInstance) error {
 	// lock ensure no one else renews this at the same time
 	s.reqLocker.lock()
 	defer s.reqLocker.unlock()
+	verifhook.Point("sc.renew.gateLocked")
 	s.pendingReq.Wait()
+	verifhook.Point("sc.renew.drained")
 	instance.Lock()
 	defer instance.Unlock()
+	verifhook.Point("sc.renew.oldLocked")
 
 	return s.open(context.Background(), instance, ua.SecurityTokenRequestTypeRenew)
 }
@@ -925,10 +931,12 @@ func (s *SecureChannel) sendRequestWithTimeout(
 	h ResponseHandler) error {
 
 	s.pendingReq.Add(1)
+	verifhook.Point("sc.req.pendingAdded")
 	respRequired := h != nil
 
 	ch, err := s.sendAsyncWithTimeout(ctx, req, reqID, instance, authToken, respRequired, timeout)
 	s.pendingReq.Done()
+	verifhook.Point("sc.req.sent")
 	if err != nil {
 		return err
 	}
@@ -943,12 +951,14 @@ func (s *SecureChannel) sendRequestWithTimeout(
 
 	select {
 	case <-ctx.Done():
+		verifhook.Point("sc.req.ctxDone")
 		s.popHandler(reqID)
 		return ctx.Err()
 	case <-s.disconnected:
 		s.popHandler(reqID)
 		return io.EOF
 	case msg := <-ch:
+		verifhook.Point("sc.req.gotMsg")
 		if msg.Err != nil {
 			if msg.Response() != nil {
 				_ = h(msg.Response()) // ignore result because msg.Err takes precedence
@@ -957,6 +967,7 @@ func (s *SecureChannel) sendRequestWithTimeout(
 		}
 		return h(msg.Response())
 	case <-timer.C:
+		verifhook.Point("sc.req.timerFired")
 		s.popHandler(reqID)
 		return ua.StatusBadTimeout
 	}
@@ -993,6 +1004,7 @@ func (s *SecureChannel) SendRequestWithTimeout(ctx context.Context, req ua.Reque
 	if err != nil {
 		return err
 	}
+	verifhook.Point("sc.req.gotActive")
 
 	return s.sendRequestWithTimeout(ctx, req, s.nextRequestID(), active, authToken, timeout, h)
 }
@@ -1009,6 +1021,7 @@ func (s *SecureChannel) sendAsyncWithTimeout(
 
 	instance.Lock()
 	defer instance.Unlock()
+	verifhook.Point("sc.send.locked")
 
 	m, err := instance.newRequestMessage(req, reqID, authToken, timeout)
 	if err != nil {
@@ -1180,8 +1193,10 @@ func (s *SecureChannel) sendResponseWithContext(ctx context.Context, instance *c
 			return err
 		}
 	}
+	verifhook.Point("sc.resp.gotActive")
 	instance.Lock()
 	defer instance.Unlock()
+	verifhook.Point("sc.resp.locked")
 
 	m := instance.newMessage(resp, typeID, reqID)
 	if _, err := s.writeMessageChunks(ctx, instance, reqID, m, resp); err != nil {
